@@ -1,8 +1,472 @@
-import Octave.Model.Paths
+/-
+C19 — Tools cannot be steered outside the intended files.
+
+Property theorems and non-vacuity examples only; helper lemmas live in Octave/Lemmas.  All statements are over
+the executable model `Octave.Model.Paths` (tied to the Python by the correspondence check of tools/props/c19.py)
+and over the data regenerated from the source on every run (`Octave.Gen.Paths`).
+
+Reading of "symlink in a component": for a prefix `q` of the absolute path, `pyIsSymlink fs fuel q = ok true`
+(the kernel's `lstat`: every component but the last is followed).  `fuel` bounds the recursion of the model's
+walkers; every theorem holds for every fuel (running out of fuel is an error outcome of the model, never `ok`).
+-/
+import Octave.Lemmas.Validate
+import Octave.Lemmas.Ext
+import Octave.Lemmas.Names
 import Octave.Gen.Paths
 namespace Octave.C19
-open Octave
+open Octave List
 
-theorem placeholder_true : True := trivial
+/-! ## Facts about the generated data (re-proved on every build; they fail when the source changes) -/
+
+/-- the three copies of ALLOWED_EXTENSIONS are the same set {".md", ".oct.md", ".octave"} -/
+theorem gen_allowed_ext :
+    Gen.allowedExt_write = [".md", ".oct.md", ".octave"] ∧ Gen.allowedExt_validate = Gen.allowedExt_write ∧
+    Gen.allowedExt_fileops = Gen.allowedExt_write ∧
+    Gen.allowedExtKind_write = "set" ∧ Gen.allowedExtKind_validate = "set" ∧ Gen.allowedExtKind_fileops = "set" := by decide
+
+theorem gen_allowed_ext_chars : Gen.allowedExt_write.map String.toList = [mdS, octMdS, octaveS] := by decide
+
+/-- every copy runs the three stages (in some order), tests '..' on `path.parts`, and has the extension logic the model transcribes -/
+theorem gen_stages :
+    (∀ e ∈ Gen.stageOrder, e.2 = ["dotdot", "symlink", "ext"] ∨ e.2 = ["symlink", "dotdot", "ext"]) ∧
+    Gen.stageOrder.map (·.1) = ["write", "validate", "fileops"] ∧
+    (∀ e ∈ Gen.dotdotTests, e.2 = "any((part == '..' for part in path.parts))") ∧
+    (∀ e ∈ Gen.extTests, e.2 = ["path.suffix not in ALLOWED_EXTENSIONS",
+        "compound_suffix = ''.join(path.suffixes[-2:]) if len(path.suffixes) >= 2 else path.suffix",
+        "compound_suffix not in ALLOWED_EXTENSIONS"]) := by decide
+
+/-- the system-symlink exemption is `symlink_depth <= 2 and str(resolved).startswith("/private/")` in every copy -/
+theorem gen_exemptions : Gen.exemptions = [("write", 2, "/private/"), ("validate", 2, "/private/"), ("fileops", 2, "/private/")] := by decide
+
+theorem gen_schema :
+    Gen.schemaNamePattern = "^[A-Z][A-Z0-9_]*$" ∧ Gen.schemaNameFlags = "0" ∧ Gen.schemaNameMethod = "match" ∧
+    Gen.schemaNameGuard = "not SCHEMA_NAME_PATTERN.match(schema_name) => return None" ∧
+    Gen.schemaFilePatterns = ["{schema_name.lower()}.oct.md", "{schema_name}.oct.md"] ∧
+    Gen.schemaJoin = "search_path / pattern" ∧
+    Gen.schemaSearchOrder = ["Path(__file__).parent.parent / 'resources' / 'specs' / 'schemas'",
+      "Path.cwd() / 'src' / 'octave_mcp' / 'resources' / 'specs' / 'schemas'", "Path.cwd() / 'specs' / 'schemas'",
+      "Path(__file__).parent / 'builtin'"] := by decide
+
+theorem gen_frozen :
+    Gen.frozenRegex = "frozen@sha256:([0-9a-fA-F]{64})" ∧ Gen.frozenMethod = "fullmatch" ∧
+    Gen.frozenStartsWith = "standard_ref.startswith('frozen@sha256:')" ∧ Gen.frozenDigest = "m.group(1).lower()" ∧
+    Gen.frozenCachedPath = "cache_dir / f'{digest[:16]}.oct.md'" ∧ Gen.frozenPrefixLen = 16 ∧
+    Gen.frozenExpected = "f'sha256:{digest}'" ∧ Gen.frozenActual = "compute_vocabulary_hash(cached_path)" ∧
+    Gen.frozenCompare = "actual_hash != expected_hash" ∧ Gen.hashReturn = "f'sha256:{hasher.hexdigest()}'" := by decide
+
+/-! ## C19_validate_sound -/
+
+/-- what an accepted path must look like: no '..' component, no symlink in any component including the last
+(except the system links the code deliberately lets through), allowed extension -/
+def Confined (fs : Fs) (fuel : Nat) (ex : Exempt) (allowed : List Str) (cwd : List Str) (s : Str) : Prop :=
+  dotdot ∉ (parsePath s).tail ∧
+  noSymlinkComponent fs fuel ex (absParts cwd s) ∧
+  extAllowed allowed (pathName (parsePath s)) = true
+
+/-- **Soundness of the three validators** (all path strings, all well-formed file systems, any stage order that
+contains the three stages, any fuel).  PARTIAL for the code as it is today: `cfg = ⟨true, true⟩` needs the guard
+"no component of the path is a dangling symlink" (`noDangling`, finding F29).  For the repaired shape of the walk
+(`current.is_symlink()` tested for every component: `cfg = ⟨false, false⟩`, proposed_fixes/F29.diff) no guard is
+needed — see `C19_validate_sound_fixed`.  The model reads `cfg` from the source (Gen.walkCfg). -/
+theorem C19_validate_sound_partial (fs : Fs) (fuel : Nat) (cfg : WalkCfg) (ex : Exempt) (allowed cwd : List Str) (s : Str)
+    (order : List Stage) (hall : Stage.dotdot ∈ order ∧ Stage.symlink ∈ order ∧ Stage.ext ∈ order)
+    (hcwd : ∀ c ∈ cwd, normalName c)
+    (hguard : (cfg.useExists = false ∧ cfg.guarded = false) ∨ (fs.WF ∧ noDangling fs fuel (absParts cwd s)))
+    (h : validatePath fs fuel cfg ex allowed cwd s order = .ok ()) :
+    Confined fs fuel ex allowed cwd s := by
+  have hst := validatePath_ok_stage h
+  have hdd := dotdotStage_ok (hst _ hall.1)
+  exact ⟨hdd, symlinkStage_ok (absParts_normal hcwd hdd) hguard (hst _ hall.2.1), extStage_ok (hst _ hall.2.2)⟩
+
+/-- full strength, for the repaired walk (no hypothesis on the file system at all) -/
+theorem C19_validate_sound_fixed (fs : Fs) (fuel : Nat) (ex : Exempt) (allowed cwd : List Str) (s : Str)
+    (order : List Stage) (hall : Stage.dotdot ∈ order ∧ Stage.symlink ∈ order ∧ Stage.ext ∈ order)
+    (hcwd : ∀ c ∈ cwd, normalName c)
+    (h : validatePath fs fuel ⟨false, false⟩ ex allowed cwd s order = .ok ()) :
+    Confined fs fuel ex allowed cwd s :=
+  C19_validate_sound_partial fs fuel ⟨false, false⟩ ex allowed cwd s order hall hcwd (Or.inl ⟨rfl, rfl⟩) h
+
+/-- the translator recognised the shape of the walk in each of the three copies (the flags themselves are data: the
+model follows them, so that repairing F29 in the source changes no statement here) -/
+theorem gen_walk_copies : Gen.walkCfg.map (·.1) = ["write", "validate", "fileops"] ∧
+    Gen.walkGuards.map (·.1) = ["write", "validate", "fileops"] ∧ Gen.walkTests.map (·.1) = ["write", "validate", "fileops"] := by decide
+
+/-! ### the negation on a witness (F29) -/
+
+def fsDangling : List (List Str × Node) :=
+  [(["sb".toList], .dir), (["sb".toList, "dang.md".toList], .link "/out/missing.md".toList)]
+
+def exToday : Exempt := ⟨2, "private".toList⟩
+def allowedToday : List Str := [mdS, octMdS, octaveS]
+
+/-- **F29**: with the walk of today, `dang.md` (a dangling symlink) is accepted by both stage orders although its
+last component is a symlink, on a well-formed file system. -/
+theorem C19_validate_sound_false_today :
+    validatePath (Fs.ofList fsDangling) 20 ⟨true, true⟩ exToday allowedToday ["sb".toList] "dang.md".toList orderA = .ok () ∧
+    validatePath (Fs.ofList fsDangling) 20 ⟨true, true⟩ exToday allowedToday ["sb".toList] "dang.md".toList orderB = .ok () ∧
+    pyIsSymlink (Fs.ofList fsDangling) 20 (absParts ["sb".toList] "dang.md".toList) = .ok true ∧
+    wfCheck fsDangling = true := by decide
+
+/-- the same witness is refused by the repaired walk -/
+example : validatePath (Fs.ofList fsDangling) 20 ⟨false, false⟩ exToday allowedToday ["sb".toList] "dang.md".toList orderA = .error .symlink := by decide
+
+/-! ### non-vacuity of `C19_validate_sound_partial`: a tree with files, a directory and live links, on which the
+hypotheses hold for the walk of today and a path is accepted -/
+
+def fsLive : List (List Str × Node) :=
+  [(["sb".toList], .dir), (["sb".toList, "d".toList], .dir), (["sb".toList, "d".toList, "f.md".toList], .file []),
+   (["sb".toList, "lin".toList], .link "d".toList), (["out".toList], .dir), (["out".toList, "secret.md".toList], .file [])]
+
+example : (Fs.ofList fsLive).WF := ofList_wf (by decide)
+example : noDangling (Fs.ofList fsLive) 20 (absParts ["sb".toList] "d/f.md".toList) := noDangling_of_B (by decide)
+example : validatePath (Fs.ofList fsLive) 20 ⟨true, true⟩ exToday allowedToday ["sb".toList] "d/f.md".toList orderA = .ok () := by decide
+example : validatePath (Fs.ofList fsLive) 20 ⟨true, true⟩ exToday allowedToday ["sb".toList] "d/n.oct.md".toList orderB = .ok () := by decide
+/-- and a live link in the middle of the path is refused -/
+example : validatePath (Fs.ofList fsLive) 20 ⟨true, true⟩ exToday allowedToday ["sb".toList] "lin/f.md".toList orderA = .error .symlink := by decide
+
+/-! ## C19_ext -/
+
+/-- **The extension stage, exactly**: a path is let through iff its final component is a non-empty stem followed by
+`.md` or `.octave`, compared case-sensitively.  Against the sentence of the property ("an extension other than
+.oct.md, .octave or .md is refused"): everything the code accepts ends in one of the three (`.oct.md` being a special
+case of `.md`; the `compound_suffix` branch never decides anything); in addition the code refuses the bare names
+`.md`, `.octave` (no stem), names ending in a dot, and any other capitalisation (`.MD`). -/
+theorem C19_ext (name : Str) :
+    extAllowed (Gen.allowedExt_write.map String.toList) name = true ↔
+      ∃ stem, stem ≠ [] ∧ (name = stem ++ mdS ∨ name = stem ++ octaveS) := by
+  rw [gen_allowed_ext_chars]
+  exact extAllowed_iff [mdS, octMdS, octaveS] (by intro x; simp) name
+
+/-- the form in which DESIGN.md states it: `suffix ∈ {.md, .octave}` or the last two suffixes are `.oct.md` -/
+theorem C19_ext_suffix_form (name : Str) :
+    extAllowed (Gen.allowedExt_write.map String.toList) name = true ↔
+      (suffixOf name = mdS ∨ suffixOf name = octaveS ∨ compoundSuffix name = octMdS) := by
+  constructor
+  · intro h
+    obtain ⟨stem, hs, hn | hn⟩ := (C19_ext name).mp h
+    · exact Or.inl ((suffixOf_eq_iff name ['m', 'd'] (by decide) (by decide)).mpr ⟨stem, hs, hn⟩)
+    · exact Or.inr (Or.inl ((suffixOf_eq_iff name ['o', 'c', 't', 'a', 'v', 'e'] (by decide) (by decide)).mpr ⟨stem, hs, hn⟩))
+  · intro h
+    rw [gen_allowed_ext_chars]
+    unfold extAllowed
+    simp only [Bool.or_eq_true, List.contains_iff_mem]
+    rcases h with h | h | h
+    · left; rw [h]; simp
+    · left; rw [h]; simp
+    · right; rw [h]; simp
+
+example : extAllowed allowedToday "a.oct.md".toList = true := by decide
+example : extAllowed allowedToday "a.MD".toList = false := by decide
+example : extAllowed allowedToday ".md".toList = false := by decide
+example : extAllowed allowedToday "a.md.".toList = false := by decide
+example : extAllowed allowedToday "a.oct.txt".toList = false := by decide
+
+/-! ## C19_refused_before_io, C19_symlink_recheck (order facts of the generated programs) -/
+
+/-- generic: a program whose ops before the first `validate` touch no file, and whose `validate` is directly followed
+by the guard, executes no file operation when validation refuses -/
+theorem refused_discipline (pre post : List GOp) (v g : GOp) (hv : v.1 = "validate") (hg : g.1 = "guard-return")
+    (hpre : ∀ op ∈ pre, op.1 ≠ "validate" ∧ isFileIO op = false ∧ op.1 ≠ "loop") :
+    runRefused (pre ++ v :: g :: post) = [] := by
+  induction pre with
+  | nil => simp [runRefused, hv, hg]
+  | cons op pre ih =>
+    have h := hpre op (by simp)
+    simp only [List.cons_append, runRefused, h.1, if_false, h.2.1, h.2.2, Bool.false_or, decide_false, Bool.false_eq_true]
+    exact ih (fun o ho => hpre o (by simp [ho]))
+
+/-- **C19_refused_before_io**: in `WriteTool.execute`, `ValidateTool.execute`, `atomic_write_octave` and the CLI `write`
+command, as the source has them now, no open/read/mkdir/mkstemp/replace (nor a loop containing one) is executed when
+the path validator refuses. -/
+theorem C19_refused_before_io :
+    Gen.programs.map (·.1) = ["WriteTool.execute", "ValidateTool.execute", "atomic_write_octave", "cli.write"] ∧
+    ∀ p ∈ Gen.programs, runRefused p.2 = [] := by decide
+
+/-- the loader checks the pattern before anything else, and touches the file system only through `exists()` and `load_schema` -/
+theorem C19_schema_load_order :
+    Gen.schemaLoadOps = [("loop", "", ""), ("loop", "", ""), ("io", "meta", "exists"), ("io", "read", "load_schema")] := by decide
+
+/-- **C19_symlink_recheck** (order): in both writers the re-check of the final component precedes `mkstemp` and every
+replace/unlink/chmod: when the re-check sees a symlink nothing is created next to the target or replaced. -/
+theorem C19_symlink_recheck_order :
+    ∀ p ∈ Gen.programs, p.1 = "WriteTool.execute" ∨ p.1 = "atomic_write_octave" →
+      ("recheck-return", "", "") ∈ p.2 ∧ runLinkSeen p.2 = [] := by decide
+
+/-- **C19_symlink_recheck** (decision), PARTIAL today: the re-check `exists() and is_symlink()` sees a final-component
+symlink only if it is not dangling; with `useExists = false` (the repaired shape) it sees every one. -/
+theorem C19_symlink_recheck_partial (fs : Fs) (fuel : Nat) (useExists : Bool) (cwd : List Str) (s : Str)
+    (hlink : pyIsSymlink fs fuel (absParts cwd s) = .ok true)
+    (hg : useExists = false ∨ pyExists fs fuel (absParts cwd s) = .ok true) :
+    recheckRefuses fs fuel useExists cwd s = .ok true := by
+  unfold recheckRefuses linkTest
+  rcases hg with hg | hg
+  · subst hg; simpa [absParts] using hlink
+  · cases useExists with
+    | false => simpa [absParts] using hlink
+    | true =>
+      have h1 : pyExists fs fuel (pyAbsolute cwd (parsePath s)).2 = .ok true := hg
+      have h2 : pyIsSymlink fs fuel (pyAbsolute cwd (parsePath s)).2 = .ok true := hlink
+      simp [h1, h2]
+
+theorem gen_recheck_sites : Gen.recheckUsesExists.map (·.1) = ["WriteTool.execute", "atomic_write_octave"] := by decide
+
+/-- the negation on the witness: today's re-check does not see the dangling link -/
+theorem C19_symlink_recheck_false_today :
+    recheckRefuses (Fs.ofList fsDangling) 20 true ["sb".toList] "dang.md".toList = .ok false ∧
+    pyIsSymlink (Fs.ofList fsDangling) 20 (absParts ["sb".toList] "dang.md".toList) = .ok true := by decide
+
+example : recheckRefuses (Fs.ofList fsLive) 20 true ["sb".toList] "lin".toList = .ok true := by decide
+
+/-! ## C19_schema_name -/
+
+/-- **A name accepted by SCHEMA_NAME_PATTERN selects a file directly inside the directory it is joined to**: both file
+names tried (`lower(n).oct.md`, `n.oct.md`) are single path components — no separator, not `..` — so the joined path is
+`dir ++ [name]` and its parent is `dir`. -/
+theorem C19_schema_name (n : Str) (dir : List Str) (h : schemaNameOk n = true) :
+    ∀ cand ∈ schemaCandidates n, joinPath dir cand = dir ++ [cand] ∧ '/' ∉ cand ∧ cand ≠ dotdot ∧ cand ≠ dot := by
+  have hn := schemaNameOk_no_slash h
+  have hl : '/' ∉ n.map Char.toLower := by
+    intro hm
+    obtain ⟨c, hc, hcl⟩ := List.mem_map.mp hm
+    exact toLower_ne_slash c (fun hx => hn (hx ▸ hc)) hcl
+  intro cand hc
+  simp only [schemaCandidates, List.mem_cons, List.mem_nil_iff, or_false] at hc
+  rcases hc with rfl | rfl
+  · exact name_octMd_single dir _ hl
+  · exact name_octMd_single dir _ hn
+
+theorem schemaProbe_go_spec (fs : Fs) (fuel : Nat) : ∀ (cands acc : List (List Str)),
+    (∀ q ∈ (schemaProbe.go fs fuel cands acc).1, q ∈ acc ∨ q ∈ cands) ∧
+    (∀ q, (schemaProbe.go fs fuel cands acc).2 = some q → q ∈ cands ∧ pyExists fs fuel q = .ok true) := by
+  intro cands
+  induction cands with
+  | nil => intro acc; simp [schemaProbe.go]
+  | cons q qs ih =>
+    intro acc
+    simp only [schemaProbe.go]
+    split
+    · rename_i hex
+      refine ⟨fun x hx => ?_, fun x hx => ?_⟩
+      · simp only [List.mem_reverse, List.mem_cons] at hx
+        rcases hx with rfl | hx
+        · right; simp
+        · left; exact hx
+      · simp at hx; subst hx; exact ⟨by simp, hex⟩
+    · obtain ⟨h1, h2⟩ := ih (q :: acc)
+      refine ⟨fun x hx => ?_, fun x hx => ?_⟩
+      · rcases h1 x hx with h | h
+        · rcases List.mem_cons.mp h with rfl | h
+          · right; simp
+          · left; exact h
+        · right; simp [h]
+      · obtain ⟨h3, h4⟩ := h2 x hx
+        exact ⟨by simp [h3], h4⟩
+    · refine ⟨fun x hx => ?_, fun x hx => ?_⟩
+      · simp only [List.mem_reverse, List.mem_cons] at hx
+        rcases hx with rfl | hx
+        · right; simp
+        · left; exact hx
+      · simp at hx
+
+/-- **`load_schema_by_name` only probes and opens files directly inside a search directory**, for every name, every list of
+search directories (in the generated order, `gen_schema`) and every file system; a name that does not match the pattern
+touches nothing. -/
+theorem C19_schema_load (fs : Fs) (fuel : Nat) (dirs : List (List Str)) (n : Str) :
+    (schemaNameOk n = false → schemaProbe fs fuel dirs n = ([], none)) ∧
+    (∀ q ∈ (schemaProbe fs fuel dirs n).1, ∃ d ∈ dirs, ∃ cand, q = d ++ [cand] ∧ '/' ∉ cand ∧ cand ≠ dotdot ∧ cand ≠ dot) ∧
+    (∀ q, (schemaProbe fs fuel dirs n).2 = some q →
+      (∃ d ∈ dirs, ∃ cand, q = d ++ [cand] ∧ '/' ∉ cand ∧ cand ≠ dotdot ∧ cand ≠ dot) ∧ pyExists fs fuel q = .ok true) := by
+  have hc : schemaNameOk n = true → ∀ q ∈ (dirs.map fun d => (schemaCandidates n).map (joinPath d)).flatten,
+      ∃ d ∈ dirs, ∃ cand, q = d ++ [cand] ∧ '/' ∉ cand ∧ cand ≠ dotdot ∧ cand ≠ dot := by
+    intro hok q hq
+    simp only [List.mem_flatten, List.mem_map] at hq
+    obtain ⟨l, ⟨d, hd, rfl⟩, hq⟩ := hq
+    obtain ⟨cand, hcand, rfl⟩ := List.mem_map.mp hq
+    obtain ⟨h1, h2, h3, h4⟩ := C19_schema_name n d hok cand hcand
+    exact ⟨d, hd, cand, h1, h2, h3, h4⟩
+  refine ⟨fun h => by simp [schemaProbe, h], ?_, ?_⟩
+  · intro q hq
+    unfold schemaProbe at hq
+    split at hq
+    · rename_i hok
+      rcases (schemaProbe_go_spec fs fuel _ []).1 q hq with h | h
+      · simp at h
+      · exact hc hok q h
+    · simp at hq
+  · intro q hq
+    unfold schemaProbe at hq
+    split at hq
+    · rename_i hok
+      obtain ⟨h1, h2⟩ := (schemaProbe_go_spec fs fuel _ []).2 q hq
+      exact ⟨hc hok q h1, h2⟩
+    · simp at hq
+
+example : schemaNameOk "SESSION_LOG".toList = true ∧ schemaNameOk "A\n".toList = true := by decide
+example : schemaNameOk "../secret".toList = false ∧ schemaNameOk "A/B".toList = false ∧ schemaNameOk "A.B".toList = false ∧
+    schemaNameOk "a".toList = false ∧ schemaNameOk "".toList = false ∧ schemaNameOk "A\n\n".toList = false := by decide
+example : schemaCandidates "META".toList = ["meta.oct.md".toList, "META.oct.md".toList] := by decide
+
+/-! ## C19_frozen -/
+
+/-- **A `frozen@sha256:` reference resolves only to a file of the cache directory whose bytes hash to that digest**:
+for every hash function `H`, file system, cache directory and reference. -/
+theorem C19_frozen (H : Str → Str) (fs : Fs) (fuel : Nat) (cache : List Str) (pfx : Nat) (ref : Str) (q : List Str)
+    (hpre : frozenPrefix.isPrefixOf ref = true)
+    (h : resolveStandard H fs fuel cache pfx ref = .ok q) :
+    ∃ hex, ref = frozenPrefix ++ hex ∧ hex.length = 64 ∧ hex.all isHexChar = true ∧
+      q = cache ++ [(hex.map Char.toLower).take pfx ++ octMd] ∧
+      ∃ content, readFile fs fuel q = some content ∧ H content = hex.map Char.toLower := by
+  unfold resolveStandard at h
+  have hnl : ref ≠ "latest".toList := by
+    intro hc; rw [hc] at hpre; revert hpre; decide
+  simp only [hnl, if_false, hpre, if_true] at h
+  split at h
+  · simp at h
+  · rename_i hex hparse
+    have hshape : ref = frozenPrefix ++ hex ∧ hex.length = 64 ∧ hex.all isHexChar = true := by
+      unfold parseFrozen at hparse
+      simp only [hpre, if_true] at hparse
+      split at hparse
+      · rename_i hc
+        simp at hparse
+        subst hparse
+        refine ⟨?_, hc.1, hc.2⟩
+        have := List.isPrefixOf_iff_prefix.mp hpre
+        obtain ⟨t, ht⟩ := this
+        rw [← ht]; simp
+      · simp at hparse
+    have hnoslash : '/' ∉ (hex.map Char.toLower).take pfx := by
+      intro hm
+      have hm' := List.mem_of_mem_take hm
+      obtain ⟨c, hc, hcl⟩ := List.mem_map.mp hm'
+      exact toLower_ne_slash c (isHexChar_ne_slash (List.all_eq_true.mp hshape.2.2 c hc)) hcl
+    have hjoin := (name_octMd_single cache _ hnoslash).1
+    rw [hjoin] at h
+    split at h
+    · simp at h
+    · simp at h
+    · split at h
+      · simp at h
+      · rename_i content hread
+        split at h
+        · rename_i hhash
+          simp at h
+          subst h
+          exact ⟨hex, hshape.1, hshape.2.1, hshape.2.2, rfl, content, hread, List.append_cancel_left hhash⟩
+        · simp at h
+
+/-- the shape test of the model is the regex of the source: 64 characters, each in `[0-9a-fA-F]` (`gen_frozen`), and the
+cache file is looked up under the first `Gen.frozenPrefixLen` = 16 digits -/
+example : parseFrozen ("frozen@sha256:".toList ++ List.replicate 64 'a') = some (List.replicate 64 'a') := by decide
+example : parseFrozen ("frozen@sha256:".toList ++ List.replicate 63 'a') = none := by decide
+example : parseFrozen ("frozen@sha256:".toList ++ List.replicate 63 'a' ++ ['/']) = none := by decide
+example : parseFrozen ("frozen@sha256:../../etc/passwd".toList) = none := by decide
+
+def fsCache : List (List Str × Node) :=
+  [(["c".toList], .dir), (["c".toList, (List.replicate 16 'a') ++ octMd], .file "GOOD".toList)]
+
+/-- non-vacuity: with `H "GOOD" = a…a` the reference (in upper case) resolves to the cache file; with another `H` it does not -/
+example : resolveStandard (fun _ => List.replicate 64 'a') (Fs.ofList fsCache) 20 ["c".toList] 16 ("frozen@sha256:".toList ++ List.replicate 64 'A')
+    = .ok ["c".toList, (List.replicate 16 'a') ++ octMd] := by decide
+example : resolveStandard (fun _ => List.replicate 64 'b') (Fs.ofList fsCache) 20 ["c".toList] 16 ("frozen@sha256:".toList ++ List.replicate 64 'A')
+    = .error .mismatch := by decide
+
+/-! ## C19_source_uri -/
+
+/-- lexical containment holds always … -/
+theorem C19_source_uri_lexical (fs : Fs) (fuel : Nat) (fix : Bool) (base : List Str) (u : Str) (r : List Str)
+    (h : validateSourceUri fs fuel fix base u = .ok r) :
+    ∃ b, resolveU fs fuel base = .ok b ∧ b <+: r := by
+  unfold validateSourceUri at h
+  split at h
+  · simp at h
+  · rename_i b hb
+    refine ⟨b, hb, ?_⟩
+    split at h
+    · simp at h
+    · split at h
+      · simp at h
+      · rename_i r0 hr0
+        split at h
+        · split at h
+          · simp at h
+          · split at h
+            · simp at h
+            · split at h
+              · rename_i hp; simp at h; subst h; exact List.isPrefixOf_iff_prefix.mp hp
+              · simp at h
+        · split at h
+          · rename_i hp; simp at h; subst h; exact List.isPrefixOf_iff_prefix.mp hp
+          · simp at h
+
+/-- **… but "resolved" is PARTIAL today (F60)**: the returned path is free of symlinks in every component — so that
+being below the base as a list of components means being inside the base directory — only when resolving `base / u`
+does not run into a symlink cycle (`uriMeetsLoop`); `Path.resolve(strict=False)` otherwise returns a partially
+resolved path. -/
+theorem C19_source_uri_partial (fs : Fs) (fuel : Nat) (fix : Bool) (base : List Str) (u : Str) (r : List Str)
+    (hloop : uriMeetsLoop fs fuel base u = false)
+    (h : validateSourceUri fs fuel fix base u = .ok r) :
+    ∃ b, resolveU fs fuel base = .ok b ∧ b <+: r ∧ physLinkFree fs r := by
+  obtain ⟨b, hb, hpre⟩ := C19_source_uri_lexical fs fuel fix base u r h
+  refine ⟨b, hb, hpre, ?_⟩
+  unfold validateSourceUri at h
+  simp only [hb] at h
+  unfold uriMeetsLoop at hloop
+  simp only [hb] at hloop
+  split at h
+  · simp at h
+  · split at h
+    · simp at h
+    · rename_i r0 hr0
+      have hr : r = r0 := by
+        split at h
+        · split at h
+          · simp at h
+          · split at h
+            · simp at h
+            · split at h <;> simp at h; exact h.symm
+        · split at h <;> simp at h; exact h.symm
+      subst hr
+      unfold resolveU at hr0
+      split at hr0
+      · simp at hr0
+      · simp at hr0
+      · rename_i p hrp
+        have : r = p := by
+          split at hr0
+          · simp at hr0
+          · split at hr0 <;> simp at hr0 <;> exact hr0.symm
+        subst this
+        exact rpWalk_done_physLinkFree fs fuel [] _ [] r (physLinkFree_nil fs) hrp
+      · rename_i np rest hrp
+        rw [hrp] at hloop
+        simp at hloop
+
+def fsLoop : List (List Str × Node) :=
+  [(["b".toList], .dir), (["b".toList, "loop".toList], .link "loop".toList),
+   (["b".toList, "lf.md".toList], .link "/out/secret.md".toList), (["out".toList], .dir), (["out".toList, "secret.md".toList], .file [])]
+
+/-- **F60, the negation on a witness**: `loop/../lf.md` is accepted and the path returned, `b/lf.md`, is a symlink to
+`/out/secret.md` outside the base `b`. -/
+theorem C19_source_uri_false_today :
+    validateSourceUri (Fs.ofList fsLoop) 20 false ["b".toList] "loop/../lf.md".toList = .ok ["b".toList, "lf.md".toList] ∧
+    pyIsSymlink (Fs.ofList fsLoop) 20 ["b".toList, "lf.md".toList] = .ok true ∧
+    pyResolve (Fs.ofList fsLoop) 20 ["b".toList, "lf.md".toList] = .ok ["out".toList, "secret.md".toList] ∧
+    uriMeetsLoop (Fs.ofList fsLoop) 20 ["b".toList] "loop/../lf.md".toList = true ∧ wfCheck fsLoop = true := by decide
+
+/-- with the fixed-point test of proposed_fixes/F60.diff the witness is refused -/
+example : validateSourceUri (Fs.ofList fsLoop) 20 true ["b".toList] "loop/../lf.md".toList = .error .resolveFailed := by decide
+/-- non-vacuity of the partial theorem: an ordinary URI with `..` that stays inside is accepted, one that leaves is refused -/
+example : validateSourceUri (Fs.ofList fsLive) 20 false ["sb".toList] "d/../d/f.md".toList = .ok ["sb".toList, "d".toList, "f.md".toList] ∧
+    uriMeetsLoop (Fs.ofList fsLive) 20 ["sb".toList] "d/../d/f.md".toList = false := by decide
+example : validateSourceUri (Fs.ofList fsLive) 20 false ["sb".toList] "../out/secret.md".toList = .error .outside := by decide
+example : validateSourceUri (Fs.ofList fsLive) 20 false ["sb".toList] "/out/secret.md".toList = .error .absolute := by decide
+/-- the statements of validate_source_uri, in order (the optional fixed-point test of proposed_fixes/F60.diff is
+recognised separately as `Gen.sourceUriFixpoint`) -/
+theorem gen_source_uri_shape : Gen.sourceUriShape.length = 6 ∧
+    Gen.sourceUriShape.take 3 = ["base_path = base_path.resolve()",
+      "if source_uri.startswith('/') or (len(source_uri) > 1 and source_uri[1] == ':'): raise",
+      "candidate = base_path / source_uri"] ∧
+    Gen.sourceUriShape.drop 4 = ["try resolved.relative_to(base_path) except ValueError: raise", "return resolved"] := by decide
 
 end Octave.C19
